@@ -30,9 +30,10 @@
    one plain access) is the absence of C11 data races.
 
    A thread holds a reference while it uses the generator: StepR, StepR2, Rekey and Close are
-   called only with refs[t] > 0 (precondition "the generator is valid" of rng.h); Create and
-   IsValid have no precondition.  Whether IsValid is exercised without a reference is the
-   constant UnrefIsValid. *)
+   called only with refs[t] > 0 (precondition "the generator is valid" of rng.h).  The property
+   quantifies over such programs; IsValid is part of them only with a reference as well
+   (UnrefIsValid = FALSE in every checked configuration; TRUE only in the informational run
+   MC_RngMT_unref.cfg, which shows that an unreferenced rngIsValid races on _inited). *)
 EXTENDS Integers, Sequences, FiniteSets, TLC
 
 CONSTANTS Threads,          \* set of thread identities
